@@ -693,6 +693,7 @@ def srvLine (st : SrvSt) (ts : List Tok) : SrvSt :=
       let m := "the server did not answer within the watchdog (hang)"
       (((st.monfail "c10" m).monfail "c12" m).monfail "c11" m).diff "hang" "the implementation hung"
     else if c = "cf.obs" then { st with rs := faultLine st.rs ts }
+    else if c = "cf.open" then { st with rs := openLine st.rs ts }
     else if c.startsWith "cp." then { st with rs := complianceLine st.rs ts }
     else if c.startsWith "rc." then
       let (rs, rc) := reconLine st.rs st.rc ts
